@@ -69,6 +69,9 @@ func (t *ClientTransport) Handshake() (hr *parser.HandshakeResponse, err error) 
 	if err != nil {
 		return
 	}
+	// The library's default (32 KiB per message) is far below what a server may send: the
+	// server's maxPayload only bounds what the client sends.
+	t.conn.SetReadLimit(-1)
 
 	// If sid is set this means that we have already connected and
 	// we're using this transport for upgrade purposes.
